@@ -228,6 +228,20 @@ func c02Oracle(in c02In) probe.Outcome {
 			}
 		}
 	}
+	// (a') every value of the two type octets an attacker can rewrite in the clear: the header's first-payload octet and the
+	// next-payload octet of the SK payload (multi-bit edits that no single flip reaches, e.g. 46 -> 49 or 33 -> 49)
+	for _, at := range []int{16, 28} {
+		for v := 0; v < 256; v++ {
+			if len(w) <= at || byte(v) == w[at] {
+				continue
+			}
+			x := append([]byte(nil), w...)
+			x[at] = byte(v)
+			if err := cx.tryAltered(x, "type-octet", in.Keys, recvI); err != nil {
+				return fail(fmt.Errorf("octet %d set to %d: %w", at, v, err))
+			}
+		}
+	}
 	// (b) every proper prefix
 	for l := 0; l < len(w); l++ {
 		if !in.AllFlips && l > 64 && l < len(w)-40 && l%5 != 0 {
